@@ -6,6 +6,7 @@ import elock
 import kinds
 import eevent
 import edbg
+import esort
 
 LEVEL = "E-LOCK + E-FREELIST + E-CACHE.dm + E-LIN/E-WRAP on the parallel code"
 
@@ -29,6 +30,10 @@ def run(ctx):
     elock.run_send_sync(ctx, F)
     efreelist.run(ctx, F)
     edbg.run(ctx, F)
+    ctx.explain("E-PERM.blocked: the position-blocking protocol of the concurrent bubble sort (workers restructure adjacent "
+                "levels in parallel): symbolic execution of every path through the swap loop keeps 'a worker at i holds exactly "
+                "{i, i+1}'.")
+    esort.check_blocked(ctx, F)
     ctx.explain("E-EVENT (gc protocol): a collection may run while other threads operate under the shared manager lock; "
                 "what keeps them apart is the bracket try_lock -> epoch bump -> pre_gc (cache locked) -> level sweeps -> "
                 "terminal sweep -> post_gc (cache unlocked) -> unlock, on every path, in both managers.")
